@@ -117,7 +117,8 @@ class C18(Prop):
                 if enq[did] < t_tx:
                     continue
                 v = oracle.classify(run.sess_cfg[s], pending, d["label"])
-                if v == MATCH and d["label"].get("answers") == [s, ex["serial"]]:
+                if v == MATCH:
+                    # whatever it was an answer to: the ids match, so it is entitled to delivery
                     match_arrivals.append((enq[did], d["label"]))
                 elif v == oracle.SKIP and enq[did] <= deadline:
                     strays_before += 1
